@@ -86,13 +86,41 @@ def replay_lists(call):
     return bad
 
 
+def replay_columns(call):
+    jobs = []
+    for series in ([[0, 2, 4, 6, 8, 10]] * 4, [[0, 2, 4], [2, 4, 6, 8], [6, 8, 10], [0, 10]], [[0, 2, 4, 6, 8, 10]] * 2):
+        k = len(series)
+        for ubs in ([2, 5, 8, 11][:k], [11, 8, 5, 2][:k]):
+            for n in range(1, k + 1):
+                jobs.append(dict(kind='stitch', series=series, ubs=ubs, n=n, unslice=True))
+    return [w for _, w in _jobs(jobs)]
+
+
+def replay_mono(call):
+    from pyg_base._pandas import _is_non_decreasing
+    bad = []
+    for v, exp in (([], True), ([1], True), ([1, 2, 3], True), ([1, 2, 2], True), ([1, 2, None], True), ([None, 1, 2], True), ([3, 2, 1], False), ([2, 2, 1], False),
+                   ([2, 1, None], False), ([None, 2, 1], False), ([1, 3, 2], ValueError), ([None, 1, None], True), ([None, 3, 1, None], False)):
+        try:
+            got = _is_non_decreasing(list(v))
+        except (ValueError, TypeError) as e:
+            got = ValueError
+        if got is not exp:
+            bad.append('_is_non_decreasing(%r) = %r, expected %r' % (v, got, exp))
+    return bad
+
+
 def replay_wrap(call):
     return [w for _, w in _jobs([dict(kind='tod', rows=[list(r) for r in B.TOD_ROWS]), dict(kind='tod', rows=[list(r) for r in B.TOD_ROWS[::2]])])]
 
 
 def replay(call):
     kind = call.get('kind')
-    fn = dict(closed=replay_closed, dfslice=replay_dfslice, lists=replay_lists, wrap=replay_wrap).get(kind)
+    if kind == 'lists' and call.get('which') in ('columns', 'unslice'):
+        kind = 'columns'
+    if kind == 'lists' and call.get('which') == 'mono':
+        kind = 'mono'
+    fn = dict(closed=replay_closed, dfslice=replay_dfslice, lists=replay_lists, wrap=replay_wrap, columns=replay_columns, mono=replay_mono).get(kind)
     if fn is None:
         return dict(fails=None, detail='no native battery for %r' % kind)
     bad = fn(call)
